@@ -200,6 +200,13 @@ func convCisco(env *run.Env, g *genCase, o *convOutcome, changed, wantPrefixes b
 				return
 			}
 			mid := dev.Unresolved()
+			if wantPrefixes {
+				// Cut between the halves of a replacement.
+				c := dev.Clone()
+				c.LeaveConfig()
+				o.Prefixes = append(o.Prefixes, c.Dump())
+				o.PrefixModels = append(o.PrefixModels, c)
+			}
 			o.Commands = append(o.Commands, cmds[1])
 			v2 := dev.ExecRaw(cmds[1])
 			if !note(i, cmds[1], v2) {
@@ -231,7 +238,10 @@ func convCisco(env *run.Env, g *genCase, o *convOutcome, changed, wantPrefixes b
 			}
 		}
 		if wantPrefixes {
-			o.Prefixes = append(o.Prefixes, dev.Dump())
+			c := dev.Clone()
+			c.LeaveConfig()
+			o.Prefixes = append(o.Prefixes, c.Dump())
+			o.PrefixModels = append(o.PrefixModels, c)
 		}
 	}
 	dev.LeaveConfig()
